@@ -58,7 +58,8 @@ class ChildNDArray(ChildBase):
     @property
     def shape(self):
         hp = self.child.hparent
-        return tuple([len(self)] + list(hp[self.feat][0].shape))
+        # (do not index an event: the parent may be empty)
+        return tuple([len(self)] + list(hp[self.feat].shape[1:]))
 
 
 class ChildScalar(np.lib.mixins.NDArrayOperatorsMixin):
